@@ -52,6 +52,7 @@ proto : PROTO IDENTIFIER optional_semicolon
 
 r_comment = """
 comment : COMMENT NEWLINE
+        | COMMENT
 """
 
 r_newline = """
